@@ -103,6 +103,13 @@ CHECKS["C15"] = dict(
    note="Trusted: reference PDA, encoding/json. Known finding (class): recursion cut-off yields self-rejected or empty examples on cyclic type graphs.",
    design="4/C15")
 
+CHECKS["C16"] = dict(
+   category="exploration", engine="B small-scope enumeration over the merged schema corpus with an expected-AST model",
+   technique="exhaustive enumeration of generated schemas; structural equality of GetAST with the AST computed from the generator's abstract schema",
+   text="For every Check-accepted case of the merged generators plus an AST-specific family covering every rule name, notes, nested or/enum/allOf items, decimal/precision, value/key shortcuts with manual rules: the tree returned by GetAST (keys, shortcut flags, token kinds, literal values, schema types by the documented precedence, rules with names/values/order/nested items and manual/generated marks, notes) must equal the model tree; inherited allOf properties must be absent.",
+   note="Trusted: ref/astmodel, whose naming conventions are calibrated on the pinned tree (the statement fixes what must be present, not the spelling of token types).",
+   design="4/C16")
+
 NOT_YET = {
 }
 
